@@ -110,10 +110,11 @@ class SideCond:
 
 
 class Event:
-    __slots__ = ('kind', 'pc', 'subject', 'weight', 'where')
+    __slots__ = ('kind', 'pc', 'subject', 'weight', 'where', 'index')
 
-    def __init__(self, kind, pc, subject, weight=None, where=''):
+    def __init__(self, kind, pc, subject, weight=None, where='', index=None):
         self.kind, self.pc, self.subject, self.weight, self.where = kind, pc, subject, weight, where
+        self.index = index          # for positional reads: the index term
 
 
 class Ctx:
@@ -258,15 +259,42 @@ class Evaluator:
         return v
 
     def e_BoolOp(self, node, pc):
+        """`and` / `or` with Python's value semantics: the result is one of the operands.
+        When every operand is a machine boolean the result is one too (the common case)."""
         is_and = isinstance(node.op, ast.And)
-        truths = []
+        vals, truths = [], []
         cur = pc
         for sub in node.values:
             v = self.eval(sub, cur)
             t = self.truth(v, sub)
+            vals.append(v)
             truths.append(t)
             cur = AND(cur, t if is_and else z3.Not(t))
-        return VBool(z3.And(truths) if is_and else z3.Or(truths))
+        if all(isinstance(v, (VBool, VInt)) or (isinstance(v, VConc) and isinstance(v.v, (bool, int, type(None))))
+               for v in vals):
+            return VBool(z3.And(truths) if is_and else z3.Or(truths))
+        # object-valued: A and B  ==  B if truthy(A) else A   (right fold)
+        objs = [self.lift_obj(v, sub) for v, sub in zip(vals, node.values)]
+        res = objs[-1]
+        for o, t in zip(reversed(objs[:-1]), reversed(truths[:-1])):
+            res = z3.If(t, res, o) if is_and else z3.If(t, o, res)
+        self.U.register(res)
+        return VObj(res)
+
+    def lift_obj(self, v, node):
+        """Any value as an object term (machine booleans / ints become bool / int objects)."""
+        U = self.U
+        if isinstance(v, VObj):
+            return v.t
+        if isinstance(v, (VBool, VInt)):
+            self.c.fresh += 1
+            t = U.obj(f'lift{self.c.fresh}')
+            if isinstance(v, VBool):
+                U.lemmas.append(z3.And(U.cls(t) == U.K['bool'], U.ival(t) == z3.If(v.b, 1, 0)))
+            else:
+                U.lemmas.append(z3.And(U.cls(t) == U.K['int'], U.ival(t) == v.i))
+            return t
+        return self.as_obj(v, node)
 
     def e_UnaryOp(self, node, pc):
         v = self.eval(node.operand, pc)
@@ -463,7 +491,7 @@ class Evaluator:
         self.side('notindexable', AND(pc, z3.Not(U.int_indexable(x))), node)
         n = U.len(x)
         self.side('index', AND(pc, U.int_indexable(x), z3.Or(i >= n, i < -n)), node)
-        c.events.append(Event('read', pc, x, z3.IntVal(1), self.where(node)))
+        c.events.append(Event('read', pc, x, z3.IntVal(1), self.where(node), index=i))
         if z3.is_int_value(i) and i.as_long() >= 0:
             return VObj(U.item_of(x, i.as_long()))
         if z3.is_int_value(i):
@@ -524,7 +552,7 @@ class Evaluator:
             if isinstance(o, VIter) and o.is_iter and len(args) == 1:
                 x = o.src
                 self.side('stopiter', AND(pc, U.len(x) == 0), node)
-                c.events.append(Event('read', pc, x, z3.IntVal(1), self.where(node)))
+                c.events.append(Event('read', pc, x, z3.IntVal(1), self.where(node), index=z3.IntVal(0)))
                 c.events.append(Event('consume', AND(pc, U.one_shot(x)), x, None, self.where(node)))
                 first = U.item_of(x, 0)
                 if o.view in ('self', 'keys'):
